@@ -479,7 +479,17 @@ func runC11Pool(c *Ctx, prop string) {
 						}
 					}
 					if puts == 0 && len(releasers) == 1 {
-						bad = append(bad, "a path of the releaser does not return the builder")
+						// a nil builder has nothing to give back: the path on which the parameter was found nil
+						// may return without Put (putStrBuf(nil) as a no-op instead of a nil dereference)
+						nilPath := false
+						for k, v := range t.PC {
+							if strings.HasPrefix(k, "eq(") && strings.Contains(k, "nil") && v == 1 {
+								nilPath = true
+							}
+						}
+						if !nilPath {
+							bad = append(bad, "a path of the releaser does not return the builder ("+shorten(t.Describe(), 100)+")")
+						}
 					}
 				}
 			}
